@@ -4,6 +4,7 @@ import z3
 import g2
 
 PROPERTY = 'C11'
+THOROUGH_EXTRA = 60
 
 
 def _stores(tier):
@@ -50,7 +51,7 @@ def subharnesses(tier):
 
 
 def budget(tier, name):
-    return 400.0 if tier == 'quick' else 1500.0
+    return 400.0 if tier == 'quick' else 600.0
 
 
 def harness(S, spec):
